@@ -342,3 +342,545 @@ Lemma h_xpending_inert now d parts r d' : h_xpending now d parts = (r, d') -> la
 Proof. unfold h_xpending. inert. Qed.
 Lemma h_xinfo_inert now d parts r d' : h_xinfo now d parts = (r, d') -> lazy_removed now d d'.
 Proof. unfold h_xinfo. inert. Qed.
+
+Lemma exec_streams_inert now d name parts o r d' :
+  mem_name name write_commands = false -> mem_name name unlogged_writers = false ->
+  exec_streams now d name parts o = Some (r, d') -> lazy_removed now d d'.
+Proof.
+  unfold exec_streams. intros Hw Hr H. chain H Hw Hr; try discriminate; inversion H as [H1]; clear H;
+  eauto using h_xrange_inert, h_xrevrange_inert, h_xlen_inert, h_xread_inert, h_xpending_inert, h_xinfo_inert.
+Qed.
+
+(** ---- SCAN family ---- *)
+Lemma eng_hscan_inert now d k c p n nv g d' : eng_hscan now d k c p n nv = (g, d') -> lazy_removed now d d'.
+Proof. unfold eng_hscan. inert. Qed.
+Lemma eng_sscan_inert now d k c p n g d' : eng_sscan now d k c p n = (g, d') -> lazy_removed now d d'.
+Proof. unfold eng_sscan. inert. Qed.
+Lemma eng_zscan_inert now d k c p n g d' : eng_zscan now d k c p n = (g, d') -> lazy_removed now d d'.
+Proof. unfold eng_zscan. inert. Qed.
+Lemma h_scan_inert now d parts r d' : h_scan now d parts = (r, d') -> lazy_removed now d d'.
+Proof. unfold h_scan. inert. Qed.
+Lemma h_hscan_inert now d parts r d' : h_hscan now d parts = (r, d') -> lazy_removed now d d'.
+Proof.
+  unfold h_hscan. intros H. destruct (kscan_parse true parts); [|inversion H; subst; apply lr_refl].
+  destruct (eng_hscan now d key cursor pat count nov) as [g d1] eqn:E. apply eng_hscan_inert in E.
+  destruct g as [[? ?]|]; inversion H; subst; exact E.
+Qed.
+Lemma h_sscan_inert now d parts r d' : h_sscan now d parts = (r, d') -> lazy_removed now d d'.
+Proof.
+  unfold h_sscan. intros H. destruct (kscan_parse false parts); [|inversion H; subst; apply lr_refl].
+  destruct (eng_sscan now d key cursor pat count) as [g d1] eqn:E. apply eng_sscan_inert in E.
+  destruct g as [[? ?]|]; inversion H; subst; exact E.
+Qed.
+Lemma h_zscan_inert now d parts o r d' : h_zscan now d parts o = (r, d') -> lazy_removed now d d'.
+Proof.
+  unfold h_zscan. intros H. destruct (kscan_parse false parts); [|inversion H; subst; apply lr_refl].
+  destruct (eng_zscan now d key cursor pat count) as [g d1] eqn:E. apply eng_zscan_inert in E.
+  destruct g as [[? ?]|]; inversion H; subst; exact E.
+Qed.
+Lemma exec_scan_inert now d name parts o r d' :
+  exec_scan now d name parts o = Some (r, d') -> lazy_removed now d d'.
+Proof.
+  unfold exec_scan. intros H.
+  repeat match type of H with (if ?c then _ else _) = _ => destruct c end;
+  try discriminate; inversion H as [H1]; clear H;
+  eauto using h_scan_inert, h_hscan_inert, h_sscan_inert, h_zscan_inert.
+Qed.
+
+(** sorted sets: the family is still a stub on this branch (its dispatcher answers None); when it
+    is merged this lemma is where its reads are discharged and ZADD .. ZPOPMAX meet the table *)
+Lemma exec_zsets_inert now d name parts o r d' :
+  mem_name name write_commands = false -> mem_name name unlogged_writers = false ->
+  exec_zsets now d name parts o = Some (r, d') -> lazy_removed now d d'.
+Proof. unfold exec_zsets. discriminate. Qed.
+
+(** THE COMPLETENESS OBLIGATION over the generated table: a command of the modelled dispatch
+    (strings/keys, lists/sets/hashes, streams/groups, SCAN family) whose name is NOT in
+    [Generated.write_commands] - and is not one of the four known unlogged writers - leaves
+    the database unchanged up to lazy removal of expired entries.  Removing a name from the
+    Rust matches! makes [mem_name name write_commands] false for it and this proof fails at
+    that name's branch. *)
+Lemma exec_db_inert now d name parts o r d' :
+  mem_name name write_commands = false -> mem_name name unlogged_writers = false ->
+  exec_db now d name parts o = Some (r, d') -> lazy_removed now d d'.
+Proof.
+  unfold exec_db. intros Hw Hr H.
+  destruct (exec_strings now d name parts) as [[r1 d1]|] eqn:E1.
+  { inversion H; subst. eapply exec_strings_inert; eauto. }
+  destruct (exec_lists now d name parts o) as [[r2 d2]|] eqn:E2.
+  { inversion H; subst. rewrite (exec_lists_inert _ _ _ _ _ _ _ Hw Hr E2). apply lr_refl. }
+  destruct (exec_zsets now d name parts o) as [[r3 d3]|] eqn:E3.
+  { inversion H; subst. eapply exec_zsets_inert; eauto. }
+  destruct (exec_streams now d name parts o) as [[r4 d4]|] eqn:E4.
+  { inversion H; subst. eapply exec_streams_inert; eauto. }
+  eapply exec_scan_inert; eauto.
+Qed.
+Lemma exec_db_inert_fresh now d name parts o r d' :
+  mem_name name write_commands = false -> mem_name name unlogged_writers = false ->
+  fresh now d = true -> exec_db now d name parts o = Some (r, d') -> d' = d.
+Proof. intros Hw Hr Hf H. eapply lr_fresh; [exact Hf|]. eapply exec_db_inert; eauto. Qed.
+
+(** the four refuted names: each changes a database that lazy expiry cannot have changed *)
+Lemma not_lr_new now d d' k e : get_entry d k = None -> get_entry d' k = Some e -> ~ lazy_removed now d d'.
+Proof. intros Hn Hs H. rewrite (lr_sub _ _ _ H k e Hs) in Hn. discriminate. Qed.
+Lemma not_lr_changed now d d' k e e' :
+  get_entry d k = Some e -> get_entry d' k = Some e' -> e <> e' -> ~ lazy_removed now d d'.
+Proof. intros Hn Hs Hne H. rewrite (lr_sub _ _ _ H k e' Hs) in Hn. congruence. Qed.
+
+(** ================= 4. replay ================= *)
+(** what a command run in database 0 does to database 0, as a function of that database alone *)
+Definition step_db0 (now : Z) (d : db) (parts : list frame) (o : option frame) : db :=
+  match parts with
+  | FBulk nm :: _ =>
+      let name := upper nm in
+      if beq name (bs "PING") then d
+      else if beq name (bs "ECHO") then d
+      else if beq name (bs "SELECT") then d
+      else if beq name (bs "FLUSHALL") then (if negb (len parts =? 1) then d else empty_db)
+      else if beq name (bs "RANDOMKEY") then d
+      else if beq name (bs "AUTH") then d
+      else if beq name (bs "QUIT") then d
+      else if beq name (bs "VERIF") then d
+      else match exec_db now d name parts o with Some (_, d') => d' | None => d end
+  | _ => d
+  end.
+
+Definition wf_srv (s : server) : Prop := length (s_dbs s) = 16%nat.
+Lemma list_set_length {A} (l : list A) : forall i x, length (list_set l i x) = length l.
+Proof. induction l as [|y l IH]; intros [|i] x; cbn [list_set length]; auto. Qed.
+Lemma wf_init pw : wf_srv (init_server pw).
+Proof. reflexivity. Qed.
+Lemma get_db_set_db_same s d : wf_srv s -> get_db (set_db s 0 d) 0 = d.
+Proof. unfold wf_srv, get_db, set_db. cbn [s_dbs]. intros H. apply nth_list_set_same. cbn. lia. Qed.
+
+Lemma nc_db0 now s c parts o : wf_srv s ->
+  get_db (snd (normal_command now s c 0 parts o)) 0 = step_db0 now (get_db s 0) parts o.
+Proof.
+  intros Hwf. unfold normal_command, step_db0.
+  destruct parts as [|first rest]; [reflexivity|]. destruct first; try reflexivity.
+  set (s0 := if mem_name (upper b) write_commands then log_aof s (FBulk b :: rest) else s).
+  assert (H0 : get_db s0 0 = get_db s 0) by (unfold s0; destruct (mem_name (upper b) write_commands); reflexivity).
+  assert (Hw0 : wf_srv s0) by (unfold s0; destruct (mem_name (upper b) write_commands); exact Hwf).
+  rewrite <- H0. clear H0. generalize dependent s0. intros s0 Hw0.
+  destruct (beq (upper b) (bs "PING")); [reflexivity|].
+  destruct (beq (upper b) (bs "ECHO")); [reflexivity|].
+  destruct (beq (upper b) (bs "SELECT")).
+  { destruct rest as [|a [|? ?]]; try reflexivity; try (destruct a; reflexivity).
+    destruct a; try reflexivity.
+    destruct (parse_usize b0); [|reflexivity]. destruct (16 <=? z); [reflexivity|].
+    destruct (zlookup c (s_conns s0)); reflexivity. }
+  destruct (beq (upper b) (bs "FLUSHALL")).
+  { destruct (negb (len (FBulk b :: rest) =? 1)); [reflexivity|]. cbn [snd]. unfold get_db. cbn [s_dbs].
+    unfold wf_srv in Hw0. destruct (s_dbs s0); [discriminate|reflexivity]. }
+  destruct (beq (upper b) (bs "RANDOMKEY")); [reflexivity|].
+  destruct (beq (upper b) (bs "AUTH")).
+  { destruct (h_auth s0 0 (FBulk b :: rest)) as [r1 s1] eqn:E.
+    destruct (auth_per_connection _ _ _ _ _ E) as (Hd & _). cbn [snd]. unfold get_db. rewrite Hd. reflexivity. }
+  destruct (beq (upper b) (bs "QUIT")); [reflexivity|].
+  destruct (beq (upper b) (bs "VERIF")); [reflexivity|].
+  destruct (exec_db now (get_db s0 0) (upper b) (FBulk b :: rest) o) as [[r0 d']|]; [|reflexivity].
+  cbn [snd]. rewrite get_db_set_trk. apply get_db_set_db_same. exact Hw0.
+Qed.
+
+Lemma nc_wf now s c dbi parts o : wf_srv s -> wf_srv (snd (normal_command now s c dbi parts o)).
+Proof.
+  intros Hwf. unfold normal_command.
+  destruct parts as [|first rest]; [exact Hwf|]. destruct first; try exact Hwf.
+  set (s0 := if mem_name (upper b) write_commands then log_aof s (FBulk b :: rest) else s).
+  assert (Hw0 : wf_srv s0) by (unfold s0; destruct (mem_name (upper b) write_commands); exact Hwf).
+  generalize dependent s0. intros s0 Hw0.
+  destruct (beq (upper b) (bs "PING")); [exact Hw0|].
+  destruct (beq (upper b) (bs "ECHO")); [exact Hw0|].
+  destruct (beq (upper b) (bs "SELECT")).
+  { destruct rest as [|a [|? ?]]; try exact Hw0; try (destruct a; exact Hw0).
+    destruct a; try exact Hw0.
+    destruct (parse_usize b0); [|exact Hw0]. destruct (16 <=? z); [exact Hw0|].
+    destruct (zlookup c (s_conns s0)); exact Hw0. }
+  destruct (beq (upper b) (bs "FLUSHALL")).
+  { destruct (negb (len (FBulk b :: rest) =? 1)); [exact Hw0|]. unfold wf_srv in *. cbn [snd s_dbs].
+    rewrite map_length. exact Hw0. }
+  destruct (beq (upper b) (bs "RANDOMKEY")); [exact Hw0|].
+  destruct (beq (upper b) (bs "AUTH")).
+  { destruct (h_auth s0 0 (FBulk b :: rest)) as [r1 s1] eqn:E.
+    destruct (auth_per_connection _ _ _ _ _ E) as (Hd & _). cbn [snd]. unfold wf_srv in *. rewrite Hd. exact Hw0. }
+  destruct (beq (upper b) (bs "QUIT")); [exact Hw0|].
+  destruct (beq (upper b) (bs "VERIF")); [exact Hw0|].
+  destruct (exec_db now (get_db s0 dbi) (upper b) (FBulk b :: rest) o) as [[r0 d']|]; [|exact Hw0].
+  cbn [snd]. unfold wf_srv in *. cbn [set_trk set_db s_dbs]. rewrite list_set_length. exact Hw0.
+Qed.
+
+(** connections and password are left alone by every command but SELECT (and AUTH when a
+    password is configured) *)
+Lemma nc_conns now s c dbi parts o :
+  s_password s = None -> beq (cmd_name parts) (bs "SELECT") = false ->
+  s_conns (snd (normal_command now s c dbi parts o)) = s_conns s /\
+  s_password (snd (normal_command now s c dbi parts o)) = None.
+Proof.
+  intros Hpw Hsel. unfold normal_command, cmd_name in *.
+  destruct parts as [|first rest]; [auto|]. destruct first; auto.
+  set (s0 := if mem_name (upper b) write_commands then log_aof s (FBulk b :: rest) else s).
+  assert (Hc0 : s_conns s0 = s_conns s /\ s_password s0 = None)
+    by (unfold s0; destruct (mem_name (upper b) write_commands); auto).
+  destruct Hc0 as [Hc0 Hp0]. rewrite <- Hc0. clear Hc0. generalize dependent s0. intros s0 Hp0.
+  destruct (beq (upper b) (bs "PING")); [auto|].
+  destruct (beq (upper b) (bs "ECHO")); [auto|].
+  rewrite Hsel.
+  destruct (beq (upper b) (bs "FLUSHALL")).
+  { destruct (negb (len (FBulk b :: rest) =? 1)); auto. }
+  destruct (beq (upper b) (bs "RANDOMKEY")); [auto|].
+  destruct (beq (upper b) (bs "AUTH")).
+  { unfold h_auth. rewrite Hp0. destruct rest as [|x [|? ?]]; auto; destruct x; auto. }
+  destruct (beq (upper b) (bs "QUIT")); [auto|].
+  destruct (beq (upper b) (bs "VERIF")); [auto|].
+  destruct (exec_db now (get_db s0 dbi) (upper b) (FBulk b :: rest) o) as [[r0 d']|]; auto.
+Qed.
+
+(** ---- the domain of the replay theorem ---- *)
+(** names outside it: SELECT (the log has no database), the four unlogged writers, SPOP (random) *)
+Definition replay_excluded : list bytes :=
+  [bs "SELECT"; bs "GETSET"; bs "HMSET"; bs "PEXPIRE"; bs "XREADGROUP"; bs "SPOP"].
+(** XADD with an auto-generated ID (time dependent) *)
+Definition auto_id (parts : list frame) : bool :=
+  match parts with _ :: _ :: FBulk i :: _ => beq i (bs "*") | _ => false end.
+Definition cmd_ok (parts : list frame) : bool :=
+  match parts with
+  | FBulk nm :: _ => negb (mem_name (upper nm) replay_excluded)
+                     && negb (beq (upper nm) (bs "XADD") && auto_id parts)
+  | _ => true
+  end.
+
+Lemma cmd_ok_not_select parts : cmd_ok parts = true -> beq (cmd_name parts) (bs "SELECT") = false.
+Proof.
+  unfold cmd_ok, cmd_name. destruct parts as [|[] rest]; try reflexivity.
+  intros H. apply andb_prop in H as [H _]. apply negb_true_iff in H.
+  destruct (beq (upper b) (bs "SELECT")) eqn:E; [|reflexivity].
+  apply beq_eq in E. rewrite E in H. vm_compute in H. discriminate.
+Qed.
+Lemma cmd_ok_not_unlogged nm rest : cmd_ok (FBulk nm :: rest) = true -> mem_name (upper nm) unlogged_writers = false.
+Proof.
+  unfold cmd_ok. intros H. apply andb_prop in H as [H _]. apply negb_true_iff in H.
+  unfold mem_name, replay_excluded, unlogged_writers in *. cbn [bmem] in *.
+  repeat match type of H with (_ || _) = false => apply orb_false_elim in H; destruct H as [? H] end.
+  repeat (apply orb_false_intro; [assumption|]). reflexivity.
+Qed.
+
+(** a command that is not logged, run on a database without expired entries, changes nothing *)
+Lemma step_db0_unlogged now d parts o :
+  is_logged parts = false -> cmd_ok parts = true -> fresh now d = true -> step_db0 now d parts o = d.
+Proof.
+  unfold step_db0, is_logged. intros Hl Hok Hf.
+  destruct parts as [|first rest]; [reflexivity|]. destruct first; try reflexivity.
+  destruct (beq (upper b) (bs "PING")); [reflexivity|].
+  destruct (beq (upper b) (bs "ECHO")); [reflexivity|].
+  destruct (beq (upper b) (bs "SELECT")); [reflexivity|].
+  destruct (beq (upper b) (bs "FLUSHALL")) eqn:E.
+  { apply beq_eq in E. rewrite E in Hl. vm_compute in Hl. discriminate. }
+  destruct (beq (upper b) (bs "RANDOMKEY")); [reflexivity|].
+  destruct (beq (upper b) (bs "AUTH")); [reflexivity|].
+  destruct (beq (upper b) (bs "QUIT")); [reflexivity|].
+  destruct (beq (upper b) (bs "VERIF")); [reflexivity|].
+  destruct (exec_db now d (upper b) (FBulk b :: rest) o) as [[r d']|] eqn:Ex; [|reflexivity].
+  eapply exec_db_inert_fresh; eauto. eapply cmd_ok_not_unlogged; eauto.
+Qed.
+
+(** ---- lock-step invariant between the live server [s] and the replayed one [R] ---- *)
+Definition conns_ok (s : server) : Prop :=
+  forall c cn, zlookup c (s_conns s) = Some cn -> c_db cn = 0 /\ forallb cmd_ok (c_queue cn) = true.
+Record inv (now : Z) (s R : server) : Prop := {
+  inv_wf : wf_srv s;
+  inv_rwf : wf_srv R;
+  inv_pw : s_password s = None;
+  inv_conns : conns_ok s;
+  inv_db : get_db R 0 = get_db s 0;
+  inv_fresh : fresh now (get_db s 0) = true
+}.
+
+(** freshness of the replayed states after each logged command *)
+Fixpoint fresh_from (now : Z) (R : server) (log : list (list frame)) : bool :=
+  match log with
+  | [] => true
+  | p :: r => let R' := replay_step now R (p, None) in fresh now (get_db R' 0) && fresh_from now R' r
+  end.
+Definition fresh_replay (now : Z) (log : list (list frame)) : bool := fresh_from now replay_init log.
+Definition replay_from (now : Z) (R : server) (log : list (list frame)) : server :=
+  fold_left (replay_step now) (no_oracle log) R.
+Lemma replay_from_app now R a b : replay_from now R (a ++ b) = replay_from now (replay_from now R a) b.
+Proof. unfold replay_from, no_oracle. rewrite map_app, fold_left_app. reflexivity. Qed.
+Lemma fresh_from_app now : forall a R b,
+  fresh_from now R (a ++ b) = fresh_from now R a && fresh_from now (replay_from now R a) b.
+Proof.
+  induction a as [|p a IH]; intros R b; [reflexivity|].
+  cbn [app fresh_from]. rewrite IH, andb_assoc. reflexivity.
+Qed.
+
+Lemma conns_ok_same s s' : s_conns s' = s_conns s -> conns_ok s -> conns_ok s'.
+Proof. unfold conns_ok. intros E H. rewrite E. exact H. Qed.
+Lemma conns_ok_set s c cn : conns_ok s -> c_db cn = 0 -> forallb cmd_ok (c_queue cn) = true ->
+  forall s', s_conns s' = zset_ c cn (s_conns s) -> conns_ok s'.
+Proof.
+  intros H Hd Hq s' E c' cn' Hl. rewrite E in Hl. destruct (Z.eq_dec c' c) as [->|Hn].
+  - rewrite zlookup_zset_same in Hl. inversion Hl; subst. auto.
+  - rewrite zlookup_zset_other in Hl by exact Hn. exact (H c' cn' Hl).
+Qed.
+Lemma conns_ok_del s c : conns_ok s -> forall s', s_conns s' = zremove c (s_conns s) -> conns_ok s'.
+Proof.
+  intros H s' E c' cn' Hl. rewrite E in Hl. destruct (Z.eq_dec c' c) as [->|Hn].
+  - rewrite zlookup_zremove_same in Hl. discriminate.
+  - rewrite zlookup_zremove_other in Hl by exact Hn. exact (H c' cn' Hl).
+Qed.
+
+(** changing only connections / trackers keeps the invariant *)
+Lemma inv_same_dbs now s R s' :
+  inv now s R -> s_dbs s' = s_dbs s -> s_password s' = s_password s -> conns_ok s' -> inv now s' R.
+Proof.
+  intros [H1 H2 H3 H4 H5 H6] Hd Hp Hc. constructor; auto.
+  - unfold wf_srv. rewrite Hd. exact H1.
+  - rewrite Hp. exact H3.
+  - unfold get_db. rewrite Hd. exact H5.
+  - unfold get_db. rewrite Hd. exact H6.
+Qed.
+
+(** one command through process_normal_command in database 0 *)
+Lemma nc_inv now s R c parts :
+  inv now s R -> cmd_ok parts = true ->
+  fresh_from now R (if is_logged parts then [parts] else []) = true ->
+  inv now (snd (normal_command now s c 0 parts None))
+          (replay_from now R (if is_logged parts then [parts] else [])).
+Proof.
+  intros [H1 H2 H3 H4 H5 H6] Hok Hfr.
+  pose proof (cmd_ok_not_select _ Hok) as Hsel.
+  destruct (nc_conns now s c 0 parts None H3 Hsel) as [Hc Hp].
+  pose proof (nc_db0 now s c parts None H1) as Hd.
+  destruct (is_logged parts) eqn:Hl.
+  - (* logged: the replayed server runs the same command on the same database 0 *)
+    unfold replay_from, no_oracle. cbn [map fold_left]. cbn [fresh_from] in Hfr.
+    apply andb_prop in Hfr as [Hfr _].
+    unfold replay_step in *. cbn [fst snd] in *.
+    pose proof (nc_db0 now R replay_conn parts None H2) as Hr.
+    constructor.
+    + apply nc_wf; exact H1.
+    + apply nc_wf; exact H2.
+    + exact Hp.
+    + eapply conns_ok_same; eauto.
+    + rewrite Hr, Hd, H5. reflexivity.
+    + rewrite Hd, <- H5, <- Hr. exact Hfr.
+  - (* not logged: nothing changes in database 0 *)
+    unfold replay_from, no_oracle. cbn [map fold_left].
+    rewrite (step_db0_unlogged now _ parts None Hl Hok H6) in Hd.
+    constructor; auto.
+    + apply nc_wf; exact H1.
+    + eapply conns_ok_same; eauto.
+    + rewrite Hd. exact H5.
+    + rewrite Hd. exact H6.
+Qed.
+
+(** the queue of an EXEC *)
+Lemma exec_queue_inv now : forall q s R acc,
+  inv now s R -> forallb cmd_ok q = true -> fresh_from now R (filter is_logged q) = true ->
+  inv now (snd (exec_queue now s 0 q acc)) (replay_from now R (filter is_logged q)).
+Proof.
+  induction q as [|parts q IH]; intros s R acc Hi Hq Hf; cbn [exec_queue filter].
+  - exact Hi.
+  - cbn [forallb] in Hq. apply andb_prop in Hq as [Hq1 Hq2]. cbn [filter] in Hf.
+    pose proof (nc_inv now s R 0 parts Hi Hq1) as Hn.
+    destruct (normal_command now s 0 0 parts None) as [rep s1]. cbn [snd] in Hn.
+    destruct (is_logged parts).
+    + change (parts :: filter is_logged q) with ([parts] ++ filter is_logged q) in *.
+      rewrite fresh_from_app in Hf. apply andb_prop in Hf as [Hf1 Hf2].
+      rewrite replay_from_app. apply IH; auto.
+    + apply IH; auto.
+Qed.
+
+Lemma h_auth_nopw s c parts : s_password s = None -> snd (h_auth s c parts) = s.
+Proof.
+  intros Hp. unfold h_auth. rewrite Hp.
+  destruct parts as [|x [|y [|? ?]]]; try reflexivity; destruct y; reflexivity.
+Qed.
+
+(** the log of a state, oldest first, after steps that only prepend to [s_aof] *)
+Lemma aof_log_cons s s' p : s_aof s' = p :: s_aof s -> aof_log s' = aof_log s ++ [p].
+Proof. unfold aof_log. intros ->. reflexivity. Qed.
+Lemma aof_log_same s s' : s_aof s' = s_aof s -> aof_log s' = aof_log s ++ [].
+Proof. unfold aof_log. intros ->. rewrite app_nil_r. reflexivity. Qed.
+
+(** one request frame of connection [c] *)
+Lemma pf_inv now s R c req :
+  inv now s R -> (match req with FArray parts => cmd_ok parts | _ => true end) = true ->
+  exists new, aof_log (snd (process_frame now s c req None)) = aof_log s ++ new /\
+              (fresh_from now R new = true ->
+               inv now (snd (process_frame now s c req None)) (replay_from now R new)).
+Proof.
+  intros Hi Hok.
+  assert (Hsame : exists new, aof_log s = aof_log s ++ new /\
+                    (fresh_from now R new = true -> inv now s (replay_from now R new))).
+  { exists []. rewrite app_nil_r. split; [reflexivity|]. intros _. exact Hi. }
+  (* a step that changes connections / trackers only *)
+  assert (Hconn : forall s', s_dbs s' = s_dbs s -> s_password s' = s_password s -> s_aof s' = s_aof s ->
+            conns_ok s' ->
+            exists new, aof_log s' = aof_log s ++ new /\
+              (fresh_from now R new = true -> inv now s' (replay_from now R new))).
+  { intros s' Hd Hp Ha Hc. exists []. split; [apply aof_log_same; exact Ha|].
+    intros _. eapply inv_same_dbs; eauto. }
+  unfold process_frame.
+  destruct req as [| | | | |l| | | | | | |]; try exact Hsame.
+  destruct l as [|first rest]; [exact Hsame|].
+  destruct first as [| | |nm| | | | | | | | |]; try exact Hsame.
+  destruct (zlookup c (s_conns s)) as [cn|] eqn:Hc; [|exact Hsame].
+  destruct (inv_conns _ _ _ Hi c cn Hc) as [Hdb Hq].
+  rewrite (inv_pw _ _ _ Hi). cbn [andb].
+  set (parts := FBulk nm :: rest) in *.
+  destruct (beq (upper (trim nm)) (bs "MULTI")).
+  { destruct (c_intx cn); [exact Hsame|]. cbn [snd]. apply Hconn; try reflexivity.
+    eapply conns_ok_set; [exact (inv_conns _ _ _ Hi)| | |reflexivity]; [exact Hdb|reflexivity]. }
+  destruct (beq (upper (trim nm)) (bs "EXEC")).
+  { unfold h_exec. destruct (c_intx cn); [|exact Hsame]. cbn [negb].
+    assert (Hi1 : inv now (set_conn s c (clear_tx cn)) R).
+    { eapply inv_same_dbs; [exact Hi|reflexivity|reflexivity|].
+      eapply conns_ok_set; [exact (inv_conns _ _ _ Hi)| | |reflexivity]; [exact Hdb|reflexivity]. }
+    destruct (existsb _ (c_watched cn)).
+    { cbn [snd]. exists []. split; [apply aof_log_same; reflexivity|]. intros _. exact Hi1. }
+    rewrite Hdb.
+    pose proof (exec_queue_aof now 0 (c_queue cn) (set_conn s c (clear_tx cn)) []) as Ha.
+    pose proof (exec_queue_inv now (c_queue cn) (set_conn s c (clear_tx cn)) R [] Hi1 Hq) as Hx.
+    destruct (exec_queue now (set_conn s c (clear_tx cn)) 0 (c_queue cn) []) as [reps s2].
+    cbn [snd] in *. exists (filter is_logged (c_queue cn)). split; [|exact Hx].
+    unfold aof_log. rewrite Ha. cbn [set_conn s_aof]. rewrite rev_app_distr, rev_involutive. reflexivity. }
+  destruct (beq (upper (trim nm)) (bs "DISCARD")).
+  { destruct (c_intx cn); [|exact Hsame]. cbn [negb snd]. apply Hconn; try reflexivity.
+    eapply conns_ok_set; [exact (inv_conns _ _ _ Hi)| | |reflexivity]; [exact Hdb|reflexivity]. }
+  destruct (beq (upper (trim nm)) (bs "WATCH")).
+  { destruct (len parts <? 2); [exact Hsame|]. destruct (c_intx cn); [exact Hsame|].
+    destruct (watch_loop_partial (get_trk s (c_db cn)) rest (c_watched cn)) as [[t' w'] okb].
+    cbn [snd]. apply Hconn; try reflexivity.
+    eapply conns_ok_set; [exact (inv_conns _ _ _ Hi)| | |reflexivity]; [exact Hdb|exact Hq]. }
+  destruct (beq (upper (trim nm)) (bs "UNWATCH")).
+  { cbn [snd]. apply Hconn; try reflexivity.
+    eapply conns_ok_set; [exact (inv_conns _ _ _ Hi)| | |reflexivity]; [exact Hdb|exact Hq]. }
+  destruct (beq (upper (trim nm)) (bs "AUTH")).
+  { rewrite (h_auth_nopw s c parts (inv_pw _ _ _ Hi)). exact Hsame. }
+  destruct (c_intx cn && negb (mem_name (upper (trim nm)) tx_not_queued)).
+  { cbn [snd]. apply Hconn; try reflexivity.
+    eapply conns_ok_set; [exact (inv_conns _ _ _ Hi)| | |reflexivity]; [exact Hdb|].
+    cbn [with_tx c_queue]. rewrite forallb_app, Hq. cbn [forallb]. rewrite Hok. reflexivity. }
+  (* a command executed directly, in database 0 *)
+  rewrite Hdb.
+  pose proof (nc_aof now s c 0 parts None) as Ha.
+  pose proof (nc_inv now s R c parts Hi Hok) as Hn.
+  destruct (normal_command now s c 0 parts None) as [rep s1]. cbn [snd] in *.
+  exists (if is_logged parts then [parts] else []). split; [|exact Hn].
+  destruct (is_logged parts); [apply aof_log_cons|apply aof_log_same]; exact Ha.
+Qed.
+
+(** ---- histories ---- *)
+Inductive ev := EConn (c : Z) | EClose (c : Z) | EFrame (c : Z) (req : frame).
+(** one event of the single command thread, everything at the same clock reading [now];
+    no oracle: commands with random outcomes are outside the deterministic catalogue *)
+Definition ev_step (now : Z) (s : server) (e : ev) : server :=
+  match e with
+  | EConn c => connect s c
+  | EClose c => del_conn s c
+  | EFrame c req => let s' := snd (process_frame now s c req None) in
+                    if is_quit req then del_conn s' c else s'
+  end.
+Definition run_evs (now : Z) (h : list ev) : server := fold_left (ev_step now) h (init_server None).
+Definition ev_ok (e : ev) : bool :=
+  match e with EFrame _ (FArray parts) => cmd_ok parts | _ => true end.
+
+Lemma ev_inv now s R e :
+  inv now s R -> ev_ok e = true ->
+  exists new, aof_log (ev_step now s e) = aof_log s ++ new /\
+              (fresh_from now R new = true -> inv now (ev_step now s e) (replay_from now R new)).
+Proof.
+  intros Hi Hok. destruct e as [c|c|c req]; cbn [ev_step].
+  - exists []. split; [apply aof_log_same; reflexivity|]. intros _.
+    eapply inv_same_dbs; [exact Hi|reflexivity|reflexivity|].
+    unfold connect. rewrite (inv_pw _ _ _ Hi).
+    eapply conns_ok_set; [exact (inv_conns _ _ _ Hi)| | |reflexivity]; reflexivity.
+  - exists []. split; [apply aof_log_same; reflexivity|]. intros _.
+    eapply inv_same_dbs; [exact Hi|reflexivity|reflexivity|].
+    eapply conns_ok_del; [exact (inv_conns _ _ _ Hi)|reflexivity].
+  - assert (Hok' : (match req with FArray parts => cmd_ok parts | _ => true end) = true)
+      by (destruct req; try reflexivity; exact Hok).
+    destruct (pf_inv now s R c req Hi Hok') as (new & Ha & Hn).
+    destruct (is_quit req); [|exists new; split; assumption].
+    exists new. split; [exact Ha|]. intros Hf. specialize (Hn Hf).
+    eapply inv_same_dbs; [exact Hn|reflexivity|reflexivity|].
+    eapply conns_ok_del; [exact (inv_conns _ _ _ Hn)|reflexivity].
+Qed.
+
+Lemma inv_init now : inv now (init_server None) replay_init.
+Proof.
+  constructor; try reflexivity.
+  intros c cn Hl. cbn in Hl. discriminate.
+Qed.
+
+(** THE REPLAY THEOREM (lock-step form): along any history of the domain, re-executing the
+    log so far on an empty server reproduces database 0 of the live server exactly *)
+Lemma run_inv now : forall h,
+  forallb ev_ok h = true -> fresh_replay now (aof_log (run_evs now h)) = true ->
+  inv now (run_evs now h) (replay now (aof_log (run_evs now h))).
+Proof.
+  induction h as [|e h IH] using rev_ind; intros Hok Hf.
+  - exact (inv_init now).
+  - rewrite forallb_app in Hok. apply andb_prop in Hok as [Hok1 Hok2].
+    cbn [forallb] in Hok2. apply andb_prop in Hok2 as [Hok2 _].
+    unfold run_evs in *. rewrite fold_left_app in *. cbn [fold_left] in *.
+    set (s := fold_left (ev_step now) h (init_server None)) in *.
+    (* the log of the longer history extends the log of the shorter one *)
+    assert (Hext : exists new, aof_log (ev_step now s e) = aof_log s ++ new).
+    { destruct e as [c|c|c req]; cbn [ev_step].
+      - exists []. apply aof_log_same. reflexivity.
+      - exists []. apply aof_log_same. reflexivity.
+      - assert (Hmono : exists new, aof_log (snd (process_frame now s c req None)) = aof_log s ++ new).
+        { clear. unfold process_frame.
+          assert (Hs : exists new, aof_log s = aof_log s ++ new) by (exists []; rewrite app_nil_r; reflexivity).
+          destruct req as [| | | | |l| | | | | | |]; try exact Hs.
+          destruct l as [|first rest]; [exact Hs|]. destruct first as [| | |nm| | | | | | | | |]; try exact Hs.
+          destruct (zlookup c (s_conns s)) as [cn|]; [|exact Hs].
+          destruct ((match s_password s with Some _ => true | None => false end) && negb (c_auth cn)).
+          { destruct (beq (upper (trim nm)) (bs "AUTH")).
+            { destruct (h_auth s c (FBulk nm :: rest)) as [r1 s1] eqn:E.
+              destruct (auth_per_connection _ _ _ _ _ E) as (_ & _ & _ & Ha & _).
+              exists []. apply aof_log_same. exact Ha. }
+            destruct (beq (upper (trim nm)) (bs "PING")); [exact Hs|].
+            destruct (beq (upper (trim nm)) (bs "QUIT")); exact Hs. }
+          destruct (beq (upper (trim nm)) (bs "MULTI")).
+          { destruct (c_intx cn); [exact Hs|]. exists []. apply aof_log_same. reflexivity. }
+          destruct (beq (upper (trim nm)) (bs "EXEC")).
+          { unfold h_exec. destruct (negb (c_intx cn)); [exact Hs|].
+            destruct (existsb _ (c_watched cn)); [exists []; apply aof_log_same; reflexivity|].
+            pose proof (exec_queue_aof now (c_db cn) (c_queue cn) (set_conn s c (clear_tx cn)) []) as Ha.
+            destruct (exec_queue now (set_conn s c (clear_tx cn)) (c_db cn) (c_queue cn) []) as [reps s2].
+            cbn [snd] in *. exists (filter is_logged (c_queue cn)).
+            unfold aof_log. rewrite Ha. cbn [set_conn s_aof]. rewrite rev_app_distr, rev_involutive. reflexivity. }
+          destruct (beq (upper (trim nm)) (bs "DISCARD")).
+          { destruct (negb (c_intx cn)); [exact Hs|]. exists []. apply aof_log_same. reflexivity. }
+          destruct (beq (upper (trim nm)) (bs "WATCH")).
+          { destruct (len (FBulk nm :: rest) <? 2); [exact Hs|]. destruct (c_intx cn); [exact Hs|].
+            destruct (watch_loop_partial (get_trk s (c_db cn)) rest (c_watched cn)) as [[t' w'] okb].
+            exists []. apply aof_log_same. reflexivity. }
+          destruct (beq (upper (trim nm)) (bs "UNWATCH")); [exists []; apply aof_log_same; reflexivity|].
+          destruct (beq (upper (trim nm)) (bs "AUTH")).
+          { destruct (h_auth s c (FBulk nm :: rest)) as [r1 s1] eqn:E.
+            destruct (auth_per_connection _ _ _ _ _ E) as (_ & _ & _ & Ha & _).
+            exists []. apply aof_log_same. exact Ha. }
+          destruct (c_intx cn && negb (mem_name (upper (trim nm)) tx_not_queued));
+            [exists []; apply aof_log_same; reflexivity|].
+          pose proof (nc_aof now s c (c_db cn) (FBulk nm :: rest) None) as Ha.
+          destruct (normal_command now s c (c_db cn) (FBulk nm :: rest) None) as [rep s1]. cbn [snd] in *.
+          exists (if is_logged (FBulk nm :: rest) then [FBulk nm :: rest] else []).
+          destruct (is_logged (FBulk nm :: rest)); [apply aof_log_cons|apply aof_log_same]; exact Ha. }
+        destruct Hmono as (new & Hm). exists new. destruct (is_quit req); exact Hm. }
+    destruct Hext as (new0 & Hext).
+    unfold fresh_replay in Hf. rewrite Hext, fresh_from_app in Hf. apply andb_prop in Hf as [Hf1 Hf2].
+    specialize (IH Hok1 Hf1).
+    destruct (ev_inv now s _ e IH Hok2) as (new & Ha & Hn).
+    assert (new = new0) by (rewrite Ha in Hext; apply app_inv_head in Hext; exact Hext). subst new0.
+    rewrite Ha. change (replay now (aof_log s ++ new)) with (replay_from now replay_init (aof_log s ++ new)).
+    rewrite replay_from_app. apply Hn. exact Hf2.
+Qed.
+
+Theorem replay_db0 now h :
+  forallb ev_ok h = true -> fresh_replay now (aof_log (run_evs now h)) = true ->
+  get_db (replay now (aof_log (run_evs now h))) 0 = get_db (run_evs now h) 0.
+Proof. intros Hok Hf. exact (inv_db _ _ _ (run_inv now h Hok Hf)). Qed.
